@@ -67,7 +67,15 @@ type SchemaRecordField struct {
 	Type Schema `json:"type,omitempty"`
 }
 
+// maxSchemaDepth bounds the JSON nesting of a schema document. Real schemas
+// are a handful of levels deep; without a bound a document that is nothing but
+// nested brackets costs time and memory quadratic in its length.
+const maxSchemaDepth = 200
+
 func (s *Schema) UnmarshalJSONFrom(dec *jsontext.Decoder) error {
+	if dec.StackDepth() > maxSchemaDepth {
+		return fmt.Errorf("schema nested deeper than %d levels", maxSchemaDepth)
+	}
 	switch dec.PeekKind() {
 	case '"':
 		token, err := dec.ReadToken()
